@@ -29,14 +29,23 @@ pub fn run_c17(tier: &str, seed: u64, out: &mut dyn Write) {
                 thread::spawn(move || {
                     let mut rr = Rng::new(s);
                     let mut uids = Vec::with_capacity(m);
+                    let mut last: Option<portus::lang::Scope> = None;
                     b.wait();
                     for _ in 0..m {
                         let src = *rr.pick(&SRCS);
                         if let Some(Ok((bin, sc))) = catch(|| portus::lang::compile(src, &[])) {
                             // the uid placed in an install message is the scope's; a clone keeps it
+                            // (through every way the language offers of copying one: clone, clone_from onto a scope of
+                            // another compilation, to_owned, a clone of a container that holds it)
                             let c = sc.clone();
                             let _ = bin;
-                            uids.push((sc.program_uid, c.program_uid));
+                            let mut ok = c.program_uid == sc.program_uid;
+                            if let Some(prev) = last.as_mut() { prev.clone_from(&sc); ok = ok && prev.program_uid == sc.program_uid && prev.get("Cwnd").is_some() == sc.get("Cwnd").is_some(); }
+                            let boxed = vec![Some(sc.clone())].clone(); ok = ok && boxed[0].as_ref().map(|x| x.program_uid) == Some(sc.program_uid);
+                            ok = ok && sc.to_owned().program_uid == sc.program_uid;
+                            let mut slot = Some(c.clone()); slot.clone_from(&Some(sc.clone())); ok = ok && slot.map(|x| x.program_uid) == Some(sc.program_uid);
+                            last = Some(c);
+                            uids.push((sc.program_uid, if ok { sc.program_uid } else { !sc.program_uid }));
                         }
                     }
                     uids
@@ -149,6 +158,33 @@ pub fn run_c19(tier: &str, seed: u64, out: &mut dyn Write) {
         let mut got = vec![]; let mut bad = 0; let mut buf = [0u8; 1024];
         let res = catch(|| { while let Ok((n, ())) = sock.recv(&mut buf) { match check_payload(&buf[..n]) { Some(x) => got.push(x), None => bad += 1 } } });
         writeln!(out, "transport\tchan-polling-backlog per={}\t{}", per, if res.is_none() { "PANIC".to_string() } else { judge(&got, 1, per, bad) }).unwrap();
+    }
+    // the receive path on the channel transport with the caller's buffer starting 0..3 bytes off a word boundary and
+    // messages that fill it to the last byte: each comes out whole, once, in order
+    for off in 0..4usize {
+        use portus::serialize::{self, measure};
+        let msgs: Vec<Vec<u8>> = (0..3u32).map(|i| serialize::serialize(&measure::Msg { sid: 10 + i, program_uid: 4, num_fields: 16, fields: (0..16).map(|k| (i as u64) << 32 | k).collect() }).unwrap()).collect();
+        let size = msgs[0].len();
+        let (to_ccp, from_dp) = crossbeam::channel::unbounded::<Vec<u8>>();
+        let (to_dp, _from_ccp) = crossbeam::channel::unbounded::<Vec<u8>>();
+        for m in &msgs { to_ccp.send(m.clone()).unwrap(); }
+        let flag = Arc::new(std::sync::atomic::AtomicBool::new(true));
+        let f2 = flag.clone();
+        let stopper = thread::spawn(move || { thread::sleep(std::time::Duration::from_millis(400)); f2.store(false, std::sync::atomic::Ordering::SeqCst); });
+        let res = catch(|| {
+            let sock = portus::ipc::chan::Socket::<Nonblocking>::new(to_dp, from_dp);
+            let mut store = vec![0u8; size + 16];
+            let base = (8 - (store.as_ptr() as usize % 8)) % 8;
+            let buf = &mut store[base + off..base + off + size];
+            let mut b = portus::ipc::Backend::new(sock, flag, buf);
+            let mut got = vec![];
+            while let Some((m, ())) = b.next() { if let portus::serialize::Msg::Ms(x) = m { got.push((x.sid, x.fields.len(), x.fields.last().cloned())); } else { got.push((0, 0, None)); } if got.len() >= 3 { break; } }
+            got
+        });
+        let _ = stopper.join();
+        let want: Vec<(u32, usize, Option<u64>)> = (0..3u32).map(|i| (10 + i, 16, Some((i as u64) << 32 | 15))).collect();
+        writeln!(out, "transport\tchan-backend buffer-offset={} message-size=buffer-size={}\t{}", off, size,
+            match res { None => "PANIC".to_string(), Some(g) if g == want => "intact-once-in-order".to_string(), Some(g) => format!("received [{}] of 3 whole messages", g.len()) }).unwrap();
     }
     for over in [1025usize, 2048, 70000] {
         let (to_ccp, from_dp) = crossbeam::channel::unbounded::<Vec<u8>>();
